@@ -66,7 +66,8 @@ type c17sub struct {
 }
 
 type c17step struct {
-	Op   string `json:"op"`             // block crash restart eval eval2 reset finish rollback
+	Op   string `json:"op"`             // prelude block crash restart eval eval2 reset finish rollback
+	Kill int    `json:"kill,omitempty"` // prelude: the identity that the abandoned lottery branch had killed
 	Txs  []int  `json:"txs,omitempty"`  // block/crash: indexes into the case's transaction list
 	Keep int    `json:"keep,omitempty"` // reset: number of blocks kept
 }
@@ -731,7 +732,51 @@ func c17runCer(cs c17cer) (lines *c17lines, fails []c17failure, evals int, tags 
 	l.add(fmt.Sprintf("new store %d", len(cs.Ids)), "ok")
 	l.add("new node 1", "ok") // 1 = the reset handler drops the cache (the code as it is)
 	db := dbm.NewMemDB()
-	node := fx.newNode(db, false)
+	var node *c17node
+	relotterySeen := false
+	if len(cs.Script) > 0 && cs.Script[0].Op == "prelude" {
+		// Finding F38: the node first followed a branch whose flip-lottery block came after a KillTx of identity Kill (so
+		// its candidates lack it), then the chain is reset below the lottery block (state in NonePeriod) and the adopted
+		// branch's lottery block arrives: the candidates must be those of the adopted branch.
+		func() {
+			defer func() {
+				if r := recover(); r != nil {
+					err = fmt.Errorf("prelude panicked: %v", r)
+				}
+			}()
+			k := cs.Script[0].Kill
+			st := fx.app.State
+			st.SetValidationPeriod(state.NonePeriod)
+			if e := fx.app.Commit(nil); e != nil { // version 2: before the lottery block
+				panic(e)
+			}
+			st.SetState(fx.addrs[k], state.Killed)
+			fx.app.IdentityState.SetValidated(fx.addrs[k], false)
+			st.SetValidationPeriod(state.AfterLongSessionPeriod)
+			if e := fx.app.Commit(nil); e != nil { // version 3: the abandoned branch inside the ceremony
+				panic(e)
+			}
+			fx.app.ValidatorsCache.Load()
+			node = fx.newNode(db, false) // lottery of the abandoned branch
+			if e := fx.app.ResetTo(2); e != nil {
+				panic(e)
+			}
+			node.bus.Publish(&events.BlockchainResetEvent{}) // fork switch below the lottery block
+			if e := fx.app.ResetTo(1); e != nil { // the adopted branch's state inside the ceremony (identity Kill alive)
+				panic(e)
+			}
+			other := crypto.Hash(append([]byte("adopted-branch-"), fx.seed...))
+			_ = other
+			node.vc.VerifC17Relottery(fx.seed) // the adopted branch's flip-lottery block
+			relotterySeen = true
+		}()
+		if err != nil {
+			return nil, nil, 0, nil, err
+		}
+		tags = append(tags, "lottery-branch-switch")
+	} else {
+		node = fx.newNode(db, false)
+	}
 	var blocks [][]int // X's current chain
 	versions := map[string]int{}
 	verDigest := map[int]string{}
@@ -929,6 +974,8 @@ func c17runCer(cs c17cer) (lines *c17lines, fails []c17failure, evals int, tags 
 					}
 					if rollbackSeen {
 						sig = "C17:re-evaluation-after-rollback-differs"
+					} else if relotterySeen {
+						sig = "C17:candidates-of-abandoned-lottery-branch"
 					} else if resetSeen && stale {
 						sig = "C17:stale-epoch-cache-after-reorg"
 					}
@@ -1381,6 +1428,15 @@ func c17ceremonies(c *hx.Ctx) error {
 			mode = 4 // a quarter of the ceremonies: rollback over the validation-finishing block
 		}
 		c17script(c, &cs, len(fx.txs), mode)
+		if i%8 == 5 && len(fx.candIdx) > 1 {
+			// the node first computed its candidates on a lottery branch that had killed one of the candidates
+			var cands []int
+			for id := range fx.candIdx {
+				cands = append(cands, id)
+			}
+			sort.Ints(cands)
+			cs.Script = append([]c17step{{Op: "prelude", Kill: cands[c.Rng.Intn(len(cands))]}}, cs.Script...)
+		}
 		if err := c17emitCer(c, cs); err != nil {
 			return err
 		}
